@@ -39,6 +39,32 @@ STRENGTHENED = {
     "C17-r2-m2": "domain extended before the first run: very long lines (count and end points only)",
     "C17-r2-m3": "detected by C07 after single stroked lines at offsets up to 2·10⁹ were added",
     "C19-r2-m2": "reported by C08 at first; C19 now has display-scale triangles of its own",
+    "C09-r3-m1": "missed at first: the draining target pulled colours with next() only; it now rotates between next(), internal iteration (for_each / fold) and mixtures (k x width colours with next(), the rest by fold)",
+    "C09-r3-m2": "missed at first: no image beyond 2^32 pixels; one 65536 x 65540 image (lazily zeroed memory) with a sub-image behind raw index 2^32 added",
+    "C09-r3-m3": "same strengthening as C09-r3-m2 (the whole giant image drawn on a target that stops reading)",
+    "C10-r3-m1": "missed at first: same as C09-r3-m1 (as_image() drawn on the draining target)",
+    "C11-r3-m1": "missed at first: the remaining items were only observed with next()/nth()/size_hint(); scripts now end with count(), last() or fold(), also on drained iterators and after an nth() beyond the end",
+    "C14-r3-m1": "missed at first: styles were built by writing the public fields; they are now built along six routes (builder with the font first / last / in the middle, builder from another style with the font replaced, MonoTextStyle::new, fields)",
+    "C14-r3-m3": "missed at first: custom mappings never started with the ASCII range and never mapped C0 control characters; a third of them do now",
+    "C20-r3-m2": "missed at first: set_pixel was only called with points on the display; off-display points (incl. those whose linear index is valid) added; the next observation sees the phantom cell",
+    "C20-r3-m3": "missed at first: no clear() in the histories; clear (also twice with the same colour), whole-display fill_solid and fill_contiguous with short / exact / long streams added (EGMock!FillSolidFast, proved equal to the stepped machine by MC_C20)",
+    "C06-r3-m1": "missed at first: every target reported a huge bounding box; C06 now also draws on five small / offset / empty window targets and demands the reference picture inside each window",
+    "C06-r3-m3": "missed at first: stroke widths stopped at 30; inside strokes up to u32::MAX added (recorded with an equivalent width the 32-bit checker can read)",
+    "C06-r3-m2": "detected by C01 (native vs pixels() path on small boxes) before C06 had window targets; C06 detects it too now",
+    "C02-r3-m3": "missed at first: no zero-width / invisible code points in the strings; seven exotic strings added to C02 and the shared catalogue",
+    "C02-r3-m1": "catalogue extended before the first run: closed polylines (first vertex = last vertex)",
+    "C02-r3-m2": "catalogue extended before the first run: dotted rectangles 1 or 2 pixels thin, odd and even lengths",
+    "C13-r3-m2": "C13 extended before the first run: the named web colour tables (WebColors) of every RGB type against the Rgb888 table",
+    "C03-r3-m1": "missed at first: huge areas only went through the trait defaults; one fill_contiguous of a 70 000 wide area through a clipped target with a constant-time-nth colour stream added (colour = f(row, column), predicted without forming the 2^32 index)",
+    "C16-r3-m1": "missed at first (by C05, C16 has no iterator clause): points() was observed with next() only; count / last / nth / size_hint and MIXED consumption (k x next(), then count / last / fold, skip(k).count()) added to C05 and to the stroke pixels of C17",
+    "C16-r3-m2": "missed at first: Rectangle::contains resolved to the inherent method everywhere; C05 now also probes through the ContainsPoint trait and demands agreement",
+    "C16-r3-m3": "detected by C05's nth walk on rectangles once the iterator protocol existed",
+    "C08-r3-m1": "this change re-introduces D22; detected by MC_C03's clip layer <1,1,2,0> replayed into the code and by C09's clipped draws",
+    "C08-r3-m2": "missed at first: draw_sub_image was never called directly; C08 now calls it with ten out-of-range areas (C14 sees it too through glyph indices far beyond the atlas)",
+    "C17-r3-m1": "missed at first: C17 never set a dotted stroke style (documented as rectangle-only); a sixth of the medium lines have it now",
+    "C17-r3-m3": "missed at first: stroke pixels were pulled with next() only; iterator protocol with mixed consumption added",
+    "C17-r3-m2": "C17's long lines got nth() probes before the first run",
+    "C12-r3-m1": "a load() change: reported by C11 (layout of every load), C12 does not load",
     "C17-m1": "domain extended before the first run: long wide lines beyond w·len = 23 170 (the old overflow bound of the library)",
 }
 rows = []
